@@ -149,17 +149,18 @@ def check_index_spaces(chk, tus, it, tabs):
     chk.expect(re.search(r'\bf2\(i\);', fns.get('modInstantiate', '')) is not None, 'R04.2', 'start-identifier',
                'start function 2 is called as %r' % fns.get('modInstantiate', '')[-60:], site + ':start')
     # the element stores must actually run at instantiation, for a defined and for an imported table
-    for table in ('defined', 'imported'):
-        fns_t = c06.split_functions(c06.inits_text(it2, c06.shape(it2, mem='none', table=table, nglobals=0, gimports=0, data=(), elems=1, start=False)))
+    for table, pretty in (('defined', 0), ('imported', 0), ('defined', 1), ('imported', 1)):
+        fns_t = c06.split_functions(c06.inits_text(it2, c06.shape(it2, mem='none', table=table, nglobals=0, gimports=0, data=(), elems=1, start=False),
+                                                   pretty=pretty))
         n_stores = len(re.findall(r'data\[offset\s*\+\s*\d+\]\s*=\s*\(wasmFunc\)', fns_t.get('modInitTables', '')))
         called = re.search(r'\bmodInitTables\s*\(', fns_t.get('modInstantiate', '')) is not None
         tgt = re.findall(r'(\S+)\.data\[offset\s*\+\s*(\d+)\]\s*=\s*\(wasmFunc\)\s*&?(\w+)', fns_t.get('modInitTables', ''))
         want_t = '(*i->env__table)' if table == 'imported' else 'i->t0'
         chk.expect([(a, int(b), c_) for a, b, c_ in tgt] == [(want_t, 0, 'f1'), (want_t, 1, 'env__imp0'), (want_t, 2, 'f3')], 'R04.4',
-                   'element-target:' + table,
+                   'element-target:%s%s' % (table, ',pretty' if pretty else ''),
                    'element segment [1,0,3] of table 0 (%s) is stored as %r; expected entries offset+0..2 of %s holding f1, env__imp0, f3'
                    % (table, tgt, want_t), 'wasmCWriteInitTables:element-target')
-        chk.expect(n_stores == 3 and called, 'R04.4', 'element-stores-run:' + table,
+        chk.expect(n_stores == 3 and called, 'R04.4', 'element-stores-run:%s%s' % (table, ',pretty' if pretty else ''),
                    'module with a %s table and one element segment of 3 functions: InitTables contains %d stores and Instantiate %s it - '
                    'call_indirect through an initialised entry would reach whatever the table held before'
                    % (table, n_stores, 'calls' if called else 'does NOT call'), 'wasmCWriteInstantiateFunction:init-tables')
